@@ -162,6 +162,7 @@ def run(prog, rep, tier='quick'):
         'and reflection coefficient, starting from real(r[0]); (nesting) nothing computed in iteration k depends on the '
         'requested order; (scaling) a, k degree 0 and P degree 1 in r; (cholesky) the three back ends solve with matching '
         'triangular flags / L then L^H. NOT decided: that the recursions satisfy T x = z numerically, stability, |k|<1.')
+    rep.rule('order-update', 'in LEVINSON / HERMTOEP / TOEPLITZ no store A[i2] = f(.., A[i1], ..) follows a store to A[i1] in the same iteration (i1 != i2): the simultaneous order update must use the saved previous value')
     rep.rule('dtype', 'HERMTOEP / TOEPLITZ: no complex value is stored into a real buffer and the solution is complex when the matrix or the right-hand side is')
     rep.rule('charge', 'no operation in the recursion combines different modulation charges; outputs carry the charges of their representation')
     rep.rule('guard', 'update of P -> (P<=0 -> raise) before the next division by P / end of iteration')
@@ -250,6 +251,22 @@ def run(prog, rep, tier='quick'):
         else:
             rep.proved('dtype', g.qname, 'complex autocorrelation', 'A and the reflection coefficients are complex buffers', loc(g.mod, g.node))
     rep.floor('dtype contexts', n_dt, 7)
+    # ---------------- in-place two-ended order updates read the previous order's values
+    from ..orderupdate import check as order_check
+    n_ou = 0
+    for mod_, fn_ in (('levinson', 'LEVINSON'), ('toeplitz', 'HERMTOEP'), ('toeplitz', 'TOEPLITZ')):
+        g = prog.func(mod_, fn_)
+        cnt, bad = order_check(g.node)
+        n_ou += cnt
+        if bad:
+            for s_, arr_, idx_ in bad:
+                rep.violation('order-update', g.qname, normalise(s_)[:90], 'the right-hand side reads %s[%s] after it was overwritten '
+                              'earlier in the same iteration: the order update needs the previous order\'s value there (save it in a '
+                              'temporary first, or assign both ends at once)' % (arr_, idx_), loc(g.mod, s_))
+        else:
+            rep.proved('order-update', g.qname, 'in-place stores', '%d array stores inside loops examined: none reads an element of the '
+                       'same array that was overwritten earlier in the iteration' % cnt, loc(g.mod, g.node))
+    rep.floor('order-update stores examined', n_ou, 10)
     # ---------------- guards and recurrences
     ng = guard_rule(rep, prog, 'levinson', 'LEVINSON', 'P', allow='allow_singularity')
     ng += guard_rule(rep, prog, 'toeplitz', 'HERMTOEP', 'P')
